@@ -281,10 +281,12 @@ class Cursor:
         elif k == "delete":
             self._delete(ast, pos, named)
         elif k == "create_table":
-            _, name, cols, types, pk = ast
+            _, name, cols, types, pk, if_not_exists = ast
             if name in st.tables:
-                raise OperationalError("table %s already exists" % name)
-            st.tables[name] = Table(name, cols, types, pk)
+                if not if_not_exists:
+                    raise OperationalError("table %s already exists" % name)
+            else:
+                st.tables[name] = Table(name, cols, types, pk)
         elif k == "create_index":
             if ast[1] in st.indexes:
                 raise OperationalError("index %s already exists" % ast[1])
